@@ -13,32 +13,32 @@ import (
 )
 
 type Clause struct {
-	Kind   string // requires, ensures, panic_ensures, panics_only_if, invariant, modifies, assert_call, alloc_bound, assume_call, havoc
-	Tags   []string
-	Expr   Expr
-	Exprs  []Expr // modifies list
-	Loop   string // loop label for invariants
-	Desig  string // assert_call designator
-	Text   string
-	File   string
-	Line   int
-	Name   string // optional clause name ("ensures[C09] saturating: expr")
-	Known  string
+	Kind  string // requires, ensures, panic_ensures, panics_only_if, invariant, modifies, assert_call, alloc_bound, assume_call, havoc
+	Tags  []string
+	Expr  Expr
+	Exprs []Expr // modifies list
+	Loop  string // loop label for invariants
+	Desig string // assert_call designator
+	Text  string
+	File  string
+	Line  int
+	Name  string // optional clause name ("ensures[C09] saturating: expr")
+	Known string
 }
 
 type Contract struct {
-	Target   string // function designator as written
-	Kind     string // func | closure | extern | method | dyn
-	Params   []string
-	Results  []string
-	Clauses  []*Clause
-	File     string
-	Line     int
-	Pkg      string // package path of the contract file (in-repo)
-	Trusted  bool   // extern: ensures are assumed
-	Pure     bool
-	Inline   bool
-	NoFrame  bool
+	Target  string // function designator as written
+	Kind    string // func | closure | extern | method | dyn
+	Params  []string
+	Results []string
+	Clauses []*Clause
+	File    string
+	Line    int
+	Pkg     string // package path of the contract file (in-repo)
+	Trusted bool   // extern: ensures are assumed
+	Pure    bool
+	Inline  bool
+	NoFrame bool
 }
 
 type GhostFunc struct {
@@ -86,19 +86,35 @@ type Lemma struct {
 type Expr interface{ exprNode() }
 
 type (
-	EIdent  struct{ Name string }
-	EInt    struct{ V string }
-	EStr    struct{ V string }
-	EChar   struct{ V int64 }
-	EBool   struct{ V bool }
-	ENil    struct{}
-	EUnary  struct{ Op string; X Expr }
-	EBinary struct{ Op string; X, Y Expr }
-	ESel    struct{ X Expr; Name string }
-	EIndex  struct{ X, I Expr }
-	ECall   struct{ Fn string; Args []Expr }
-	EForall struct{ Var, Sort string; Body Expr; Exists bool }
-	ESlice  struct{ X, Lo, Hi Expr }
+	EIdent struct{ Name string }
+	EInt   struct{ V string }
+	EStr   struct{ V string }
+	EChar  struct{ V int64 }
+	EBool  struct{ V bool }
+	ENil   struct{}
+	EUnary struct {
+		Op string
+		X  Expr
+	}
+	EBinary struct {
+		Op   string
+		X, Y Expr
+	}
+	ESel struct {
+		X    Expr
+		Name string
+	}
+	EIndex struct{ X, I Expr }
+	ECall  struct {
+		Fn   string
+		Args []Expr
+	}
+	EForall struct {
+		Var, Sort string
+		Body      Expr
+		Exists    bool
+	}
+	ESlice struct{ X, Lo, Hi Expr }
 )
 
 func (EIdent) exprNode()  {}
